@@ -125,13 +125,13 @@ theorem satT_fork {t : Tableau} {bi : Nat} {b : Branch} {g0 : List Node} {rest :
   · exact ⟨e, σ, b', mem_fork_other hb hb' hne, hc', hs'⟩
 
 /-- single-branch version (`t.set`) -/
-theorem satT_set {t : Tableau} {bi : Nat} {b : Branch} {g : List Node}
+theorem satT_set {t : Tableau} {bi : Nat} {b : Branch} {g : List Node} {tick : Option Nat}
     (hb : t[bi]? = some b) (hbc : b.closed = false)
     (hg : ∀ n ∈ g, n.isClosure = false)
     (hsat : ∀ (e : Env M.D) (σ : Nat → M.W), SatB L M e σ b →
         ∃ (e' : Env M.D) (σ' : Nat → M.W), SatB L M e' σ' b ∧ ∀ n ∈ g, satNode L M e' σ' n)
-    (h : SatT L M t) : SatT L M (t.set bi (b.extend g none)) := by
-  have := satT_fork (L := L) (M := M) (rest := []) (tick := none) hb hbc (g0 := g)
+    (h : SatT L M t) : SatT L M (t.set bi (b.extend g tick)) := by
+  have := satT_fork (L := L) (M := M) (rest := []) (tick := tick) hb hbc (g0 := g)
     (by intro g' hg'; simp at hg'; subst hg'; exact hg)
     (by intro e σ hs; obtain ⟨e', σ', h1, h2⟩ := hsat e σ hs; exact ⟨e', σ', h1, g, by simp, h2⟩) h
   simpa [Tableau.fork] using this
@@ -555,8 +555,8 @@ theorem ident_subst_sat (hT : L.tablesTotalB = true) (hM : M.Interp L) (hi : L.i
     (e : Env M.D) (σ : Nat → M.W)
     (hid : satNode L M e σ (.sent (.pred Pred.identity [pa, pb]) none w))
     (hp : satNode L M e σ (.sent (.pred pr ps) none w)) :
-    satNode L M e σ (.sent (.pred pr (ps.map (Param.subst pb pa))) none w) ∧
-    satNode L M e σ (.sent (.pred pr (ps.map (Param.subst pa pb))) none w) := by
+    satNode L M e σ (.sent (.pred pr (ps.map (Param.psubst pb pa))) none w) ∧
+    satNode L M e σ (.sent (.pred pr (ps.map (Param.psubst pa pb))) none w) := by
   have hcl := hM.classical (Or.inl hc)
   obtain ⟨hdes, _⟩ := identOK_facts hi (Or.inl hc)
   simp only [satNode, LogicData.satV] at hid hp ⊢
@@ -564,14 +564,14 @@ theorem ident_subst_sat (hT : L.tablesTotalB = true) (hM : M.Interp L) (hi : L.i
   have hT' := hdes _ hv hid
   simp only [eval, List.map_cons, List.map_nil] at hT'
   have heq : e.den pa = e.den pb := (hcl.1 _ _ _).1 hT'
-  have h1 : (ps.map (Param.subst pb pa)).map e.den = ps.map e.den := by
+  have h1 : (ps.map (Param.psubst pb pa)).map e.den = ps.map e.den := by
     rw [List.map_map]; apply List.map_congr_left; intro p _
-    simp only [Function.comp, Param.subst]; split
+    simp only [Function.comp, Param.psubst]; split
     · next h => subst h; exact heq.symm
     · rfl
-  have h2 : (ps.map (Param.subst pa pb)).map e.den = ps.map e.den := by
+  have h2 : (ps.map (Param.psubst pa pb)).map e.den = ps.map e.den := by
     rw [List.map_map]; apply List.map_congr_left; intro p _
-    simp only [Function.comp, Param.subst]; split
+    simp only [Function.comp, Param.psubst]; split
     · next h => subst h; exact heq
     · rfl
   simp only [eval] at hp ⊢
@@ -874,7 +874,7 @@ theorem step_sound (hL : L.SoundOK) (hnq : L.noQuantRules = true) (hM : M.Interp
               · cases hid
             · cases hs
           · cases hs
-      | quit bi name =>
+      | quit bi name tick =>
         simp only [applyAt, Step.branch] at hs hb
         split at hs
         · cases hs
